@@ -11,6 +11,8 @@ import (
 	"fmt"
 	"os"
 	"path/filepath"
+
+	"github.com/samaritan-proxy/samaritan/logger"
 )
 
 type mode struct {
@@ -56,6 +58,7 @@ func main() {
 		die("unknown mode %s", os.Args[1])
 	}
 	flag.CommandLine.Parse(os.Args[2:])
+	logger.SetLevel("fatal") // the repository logs to stdout
 	os.MkdirAll(*fOut, 0755)
 	m()
 	for _, c := range closers {
